@@ -217,6 +217,7 @@ fn cmd_run(args: &[String]) {
     let mut selfcheck_runs = 0u64;
     let mut harness_errors = vec![];
     let mut digest_all = 0u64;
+    let mut digest_file = arg(args, "--digests").map(|p| std::fs::File::create(p).expect("digest file"));
     warm_up();
     let mut stop_after_sched_failure = false;
     for n in from..to {
@@ -312,6 +313,10 @@ fn cmd_run(args: &[String]) {
         steps += o.steps;
         revisions += o.revisions;
         digest_all = rng::hash64(digest_all, o.digest);
+        if let Some(f) = digest_file.as_mut() {
+            use std::io::Write as _;
+            let _ = writeln!(f, "{seed} {} {:016x}", c.panic_at.map(|k| k as i64).unwrap_or(-1), o.digest);
+        }
         for (k, v) in &o.stats {
             *stats.entry(k.to_string()).or_insert(0) += v;
             if *v > 0 {
